@@ -27,8 +27,9 @@ CLAIMED = {
         "the bulk walk (fetcher incl. its completion requests) ends normally and yields every entry strictly below a root, "
         "database entries only (C02_bulk_complete), hence exactly the instance set of the GETNEXT walk, each once "
         "(C02_bulk_eq_getnext); for ANY agent: nothing outside the roots, nothing twice, order independence, and size 1 IS "
-        "the GETNEXT walk; GETBULK bound = N+M*R over the generated expression; bulk walk wire traces correspond to the "
-        "implementation for sizes x truncation policies",
+        "the GETNEXT walk; a message-size limit keeps an agent conformant (C02_size_limit_conformant); GETBULK bound = N+M*R over "
+        "the generated expression; bulk walk wire traces correspond to the implementation for sizes x truncation policies "
+        "(incl. size-limited agents), big uneven tables judged by the oracle",
         "the theorems are about the model; the tie to raw.py/util.py is the wire-trace correspondence (sampled); conformant agent semantics are spec-side definitions",
     ),
     "C03": (
@@ -38,7 +39,8 @@ CLAIMED = {
         "loop budget is never what stops the walk; every response accepted by the bulk fetcher's per-column check advances "
         "every column (cc_columns); a non-advancing answer is refused as FaultySNMPImplementation and ends the walk at once, "
         "strict or lenient; traces against all agent functions over a 3-OID universe, random scripted agents and starved / "
-        "truncating agents correspond (GETNEXT and bulk)",
+        "truncating agents correspond (GETNEXT and bulk; behind v1 and v2c credentials); 2-3 walks interleaved on one client each "
+        "end as they do alone",
         "the bound counts fetch rounds: the bulk fetcher's completion requests inside one round (at most one per column, each "
         "adding a binding or ending the round) are covered by the model and correspondence; nested roots are outside the theorem",
     ),
@@ -76,7 +78,8 @@ CLAIMED = {
     "C07": (
         "proof: id in the request = id validated for every operation and clock value; accepted => ids equal; mismatch => "
         "InvalidResponseId / never a result; echo accepted (v1/v2c/v3); foreign community/version refused; tied by correspondence "
-        "with a scripted clock (read count compared) and perturbing agents, walks and discovery included",
+        "with a scripted clock (read count compared) and perturbing agents, walks and discovery included; the retransmission "
+        "after a notInTimeWindow report is under the same rule (C07_retry_rule; foreign id on the retransmitted request's answer)",
         "one clock read per operation is a model assumption validated by the read-count comparison",
     ),
     "C08": (
@@ -104,7 +107,9 @@ CLAIMED = {
         "(generated is_confirmed table, decide); security parameters = discovery result + user; digest = MAC over the datagram "
         "with twelve zero octets, and datagram / MAC input differ only in those twelve octets (in-place lemma over the message "
         "structure); authentic responses at the credentials' level are accepted for every length and whatever objects they carry "
-        "(only Report-PDUs are searched for usmStats error objects: guard generated from validate_usm_message); expansion buffer has n octets "
+        "(only Report-PDUs are searched for usmStats error objects: guard generated from validate_usm_message); the MAC input "
+        "is located in the octets as received: reset_raw_digest over the x690 mirror zeroes exactly a 12-octet digest field of "
+        "EVERY datagram of the SNMPv3 shape, any length forms (C10_raw_digest_window, C10_accepts_wire; unit correspondence); expansion buffer has n octets "
         "with octet i = password[i mod |password|] for every non-empty password; localisation buffer Ku ++ engineId ++ Ku; tied "
         "by the reference RFC 3414 agent accepting every generated request, independent HMAC over the wire bytes, byte-exact "
         "comparison with the model, authentic responses sweeping all lengths 100..300, recording-hash key derivation",
@@ -140,8 +145,9 @@ CLAIMED = {
         "proof (partial): for every finite set of coroutine-tree operations on one client and every schedule: every finished "
         "operation returns its solo result and has emitted exactly its solo requests, at every moment its requests are a prefix "
         "of the solo run (the only extra traffic is discovery probes), deliveries never touch another operation's state; tied by "
-        "running 2..6 real operations under a controllable scheduler that enumerates all answering orders (v2c, v3 authPriv, one "
-        "and two clients) and comparing the global wire-event order with the model's under the same schedule",
+        "running 2..8 real operations under a controllable scheduler that enumerates all answering orders (v2c, v3 authPriv, one "
+        "and two clients; plus cancellation, a round-robin schedule with all requests outstanding at once, overlapping walks, a "
+        "reply damaged in transit) and comparing the global wire-event order with the model's under the same schedule",
         "partial: asyncio's no-preemption-between-awaits semantics is assumed; agent answers are a function of the request",
     ),
     "C15": (
@@ -182,7 +188,9 @@ CLAIMED = {
         "(generated is_confirmed table, decide); security parameters = discovery result + user; digest = MAC over the datagram "
         "with twelve zero octets, and datagram / MAC input differ only in those twelve octets (in-place lemma over the message "
         "structure); authentic responses at the credentials' level are accepted for every length and whatever objects they carry "
-        "(only Report-PDUs are searched for usmStats error objects: guard generated from validate_usm_message); expansion buffer has n octets "
+        "(only Report-PDUs are searched for usmStats error objects: guard generated from validate_usm_message); the MAC input "
+        "is located in the octets as received: reset_raw_digest over the x690 mirror zeroes exactly a 12-octet digest field of "
+        "EVERY datagram of the SNMPv3 shape, any length forms (C10_raw_digest_window, C10_accepts_wire; unit correspondence); expansion buffer has n octets "
         "with octet i = password[i mod |password|] for every non-empty password; localisation buffer Ku ++ engineId ++ Ku; tied "
         "by the reference RFC 3414 agent accepting every generated request, independent HMAC over the wire bytes, byte-exact "
         "comparison with the model, authentic responses sweeping all lengths 100..300, recording-hash key derivation",
@@ -218,8 +226,9 @@ CLAIMED = {
         "proof (partial): for every finite set of coroutine-tree operations on one client and every schedule: every finished "
         "operation returns its solo result and has emitted exactly its solo requests, at every moment its requests are a prefix "
         "of the solo run (the only extra traffic is discovery probes), deliveries never touch another operation's state; tied by "
-        "running 2..6 real operations under a controllable scheduler that enumerates all answering orders (v2c, v3 authPriv, one "
-        "and two clients) and comparing the global wire-event order with the model's under the same schedule",
+        "running 2..8 real operations under a controllable scheduler that enumerates all answering orders (v2c, v3 authPriv, one "
+        "and two clients; plus cancellation, a round-robin schedule with all requests outstanding at once, overlapping walks, a "
+        "reply damaged in transit) and comparing the global wire-event order with the model's under the same schedule",
         "partial: asyncio's no-preemption-between-awaits semantics is assumed; agent answers are a function of the request",
     ),
     "C15": (
@@ -260,7 +269,9 @@ CLAIMED = {
         "header, reading any sequence takes at most |datagram|+1 loop iterations (result or exception, never running on); the full "
         "statement is proved FALSE (C20_loop_counterexample, recurring state on 30 04 01 00 04 80) and recorded as a known "
         "finding of the dependency, as is the quadratic cost of long OID sub-identifiers; the decode path writes only the "
-        "security-model slot (generated footprint). Tied by a mutation sweep (bit flips, truncations, header substitutions, random, "
+        "security-model slot (generated footprint); what a discovery reply may put into the cache comes from items of exactly "
+        "the classes OCTET STRING / INTEGER (C20_disco_params_typed over the generated class check; unit correspondence of "
+        "USMSecurityParameters.decode on every identifier octet). Tied by a mutation sweep (bit flips, truncations, header substitutions incl. application / PDU tags, random, "
         "nested) delivered to real clients / discovery / trap decoder under a time guard with a follow-up request; every real "
         "hang must be predicted by the model",
         "partial: CPU time, big-integer cost and memory are runtime facts bounded only through iteration counts; two open known "
